@@ -28,6 +28,19 @@ pub fn catalogue() -> Vec<(String, &'static str)> {
         ("rnbqkbnr/pppppppp/8/8/8/8/PPPPPPPP/RNBQKBNR w KQkq - 0 1".to_string(), "start position"),
         ("r3k2r/p1ppqpb1/bn2pnp1/3PN3/1p2P3/2N2Q1p/PPPBBPPP/R3K2R w KQkq - 0 1".to_string(), "kiwipete"),
     ];
+    // pawns on their own last / first rank (the reader accepts them): every file, both colours, both ranks
+    for f in 0..8i8 {
+        for (c, r) in [(code(P, true), 7i8), (code(P, true), 0), (code(P, false), 0), (code(P, false), 7)] {
+            let mut p = Pos::empty();
+            p.b[sq(3, 4) as usize] = WK;
+            p.b[sq(5, 1) as usize] = BK;
+            if p.b[sq(r, f) as usize] != 0 {
+                continue;
+            }
+            p.b[sq(r, f) as usize] = c;
+            v.push((p.fen6(false), "pawn on a back rank"));
+        }
+    }
     // border-queen family: every prefix of the 26 free border squares filled with white queens
     let border: Vec<u8> = {
         let mut b = vec![];
@@ -119,6 +132,15 @@ pub fn mobility_case(fen: &str, why: &str, acc: &mut Acc) {
             (a, b)
         });
         acc.transitions += 1;
+        if r.is_ok() && why == "pawn on a back rank" {
+            let mut t = new_table();
+            let run = run_search(&g, &mut t, &SearchCfg { max_depth: Some(2), stop_at: u64::MAX, depth_monitor: u32::MAX, watchdog: 2_000_000, tableless: false });
+            if let Err(pn) = &run.result {
+                if bounds_related(pn) {
+                    acc.violation(format!("movebuf-search|{}", text), format!("a depth-2 search of a position the FEN reader accepts overran a fast path: {} [{} ({})]", pn, text, why), json::obj(vec![("kind", json::s("c15-mobility")), ("fen", json::s(text.clone()))]));
+                }
+            }
+        }
         match r {
             Ok((a, b)) => {
                 acc.max("longest unchecked move list", a as u64);
@@ -152,9 +174,7 @@ pub fn edits(fen: &str, two: bool) -> Vec<String> {
             if c == WK || c == BK || c == p.b[s as usize] {
                 continue;
             }
-            if c != 0 && kind_of(c) == P && (rank_of(s) == 0 || rank_of(s) == 7) {
-                continue;
-            }
+            // pawns on the first / eighth rank are included: the FEN reader accepts them
             let mut q = p;
             q.b[s as usize] = c;
             out.push(q.fen6(false));
